@@ -637,7 +637,8 @@ class MQTTBaseProtocol(Protocol):
         if response.resultCode == 0:
             self.state = self.CONNECTED
             self.mqttConnectionMade()   # before the callbacks are executed ...
-            if request.keepalive != 0:
+            # the application may already have disconnected from its onMqttConnectionMade handler
+            if request.keepalive != 0 and self.state is self.CONNECTED:
                 self._pingReq.keepalive = request.keepalive
                 self._pingReq.timer     = task.LoopingCall(self.ping)
                 self._pingReq.timer.start(request.keepalive)
@@ -765,7 +766,8 @@ class MQTTBaseProtocol(Protocol):
         Stops sending PINGREQ packets and waiting for PINGRESP
         '''
         if self._pingReq.timer:
-            self._pingReq.timer.stop()
+            if self._pingReq.timer.running:
+                self._pingReq.timer.stop()
             self._pingReq.timer = None
         if self._pingReq.alarm:
             # the connection may be going down because this very alarm has just fired
